@@ -595,3 +595,88 @@ def view_update_obligations(model, rep, fns, clause, rule="VIEW"):
                    f"`{view} = {norm_src(v)}` is a view of `{base}`; `{norm_src(first)}` changes `{base}` itself, which is read again at line "
                    f"{later[0].lineno if later else '?'}", node=first, fn=fn, clause=clause)
     return n
+
+
+# ----------------------------------------------------------------------------------------------------------------------------------------------------------
+# TRUTHY - "not given" is `is None`, not falsiness
+
+
+def truthiness_default_obligations(model, rep, fns, clause, rule="TRUTHY"):
+    """A parameter whose default is None means "not given".  Testing it by truthiness (`if not p`, `p or default`) also treats a legitimate falsy argument as not
+    given: an empty `Molecules` (its class defines __len__), 0, 0.0, (), "".  Decided from the annotation: flagged when it names a repository class that defines
+    __len__ / __bool__, or a builtin number / string / sequence type; classes without either (Backend) are always truthy and are left alone."""
+    falsy_classes = {c.name for c in model.all_classes if any(m in c.methods for m in ("__len__", "__bool__"))}
+    builtin_falsy = ("int", "float", "str", "tuple", "list", "Sequence", "ndarray", "NDArray", "Array", "nm", "pixel", "bool", "dict", "Iterable")
+    n = 0
+    for fn in fns:
+        a = fn.node.args
+        params = list(a.posonlyargs) + list(a.args)
+        defaults = [None] * (len(params) - len(a.defaults)) + list(a.defaults)
+        cand = {}
+        for p, d in list(zip(params, defaults)) + list(zip(a.kwonlyargs, a.kw_defaults)):
+            if isinstance(d, ast.Constant) and d.value is None and p.annotation is not None:
+                ann = norm_src(p.annotation)
+                import re as _re
+                words = set(_re.findall(r"[A-Za-z_][A-Za-z_0-9]*", ann))
+                hit = sorted((words & falsy_classes) | (words & set(builtin_falsy)))
+                if hit:
+                    cand[p.arg] = hit
+        if not cand:
+            continue
+        for node in walk_no_nested(fn.node):
+            tests = []
+            if isinstance(node, ast.UnaryOp) and isinstance(node.op, ast.Not) and isinstance(node.operand, ast.Name):
+                tests.append((node.operand.id, node))
+            if isinstance(node, (ast.If, ast.While, ast.IfExp)) and isinstance(node.test, ast.Name):
+                tests.append((node.test.id, node.test))
+            if isinstance(node, ast.BoolOp) and isinstance(node.op, ast.Or) and isinstance(node.values[0], ast.Name):
+                tests.append((node.values[0].id, node))
+            for nm, at in tests:
+                if nm not in cand:
+                    continue
+                # re-bound before the test?  then it is no longer the raw argument
+                if any(isinstance(st, ast.Assign) and any(isinstance(t, ast.Name) and t.id == nm for t in st.targets) and st.lineno < at.lineno
+                       for st in walk_no_nested(fn.node)):
+                    continue
+                n += 1
+                rep.instance(rule, fn.loc(at))
+                rep.ob(rule, fn.anchor, "an optional argument is recognised as 'not given' by `is None`, not by falsiness", False,
+                       f"`{norm_src(at)[:50]}` treats a falsy `{nm}` ({'/'.join(cand[nm])}: empty or zero is a legitimate value) as not given", node=at, fn=fn,
+                       clause=clause)
+    return n
+
+
+# ----------------------------------------------------------------------------------------------------------------------------------------------------------
+# TRUNC - "close to an integer" followed by truncation
+
+
+def close_then_truncate_obligations(model, rep, fns, clause, rule="TRUNC"):
+    """A value that was only tested to be *close to* an integer (`np.allclose(x, np.round(x))`, `np.isclose`) and is then converted with `astype(int)` / `int(x)`
+    is truncated, not rounded: 12.999999 passes the test and becomes 12.  (Positions are float32, so pos / scale is routinely a hair below the integer.)
+    The conversion must go through the rounded value."""
+    n = 0
+    INT_TYPES = ("int", "np.intp", "np.int32", "np.int64", "np.int_", "np.uint32", "np.uint64", "np.integer", "'int'", "'i'", "np.int16")
+    for fn in fns:
+        tested = {}
+        for c in ast.walk(fn.node):
+            if isinstance(c, ast.Call) and (dotted(c.func) or "").rsplit(".", 1)[-1] in ("allclose", "isclose") and len(c.args) >= 2:
+                x, y = c.args[0], c.args[1]
+                for u, v in ((x, y), (y, x)):
+                    if isinstance(v, ast.Call) and (dotted(v.func) or "").rsplit(".", 1)[-1] in ("round", "rint", "around") and v.args and norm_src(v.args[0]) == norm_src(u):
+                        tested[norm_src(u)] = c
+        if not tested:
+            continue
+        for c in ast.walk(fn.node):
+            tgt = None
+            if isinstance(c, ast.Call) and isinstance(c.func, ast.Attribute) and c.func.attr == "astype" and c.args and norm_src(c.args[0]) in INT_TYPES:
+                tgt = c.func.value
+            elif isinstance(c, ast.Call) and (dotted(c.func) or "") in INT_TYPES and len(c.args) == 1:
+                tgt = c.args[0]
+            if tgt is None or norm_src(tgt) not in tested:
+                continue
+            n += 1
+            rep.instance(rule, fn.loc(c))
+            rep.ob(rule, fn.anchor, "a value tested to be close to an integer is converted through its rounded value", False,
+                   f"`{norm_src(c)[:50]}` truncates `{norm_src(tgt)}`, which `{norm_src(tested[norm_src(tgt)])[:60]}` only showed to be within tolerance of an integer "
+                   f"(12.999999 -> 12)", node=c, fn=fn, clause=clause)
+    return n
